@@ -142,6 +142,27 @@ func init() {
 				runAndRead(ho, ro, id, sameSchemaCase(kind, "", n, docs), false)
 			}
 		}
+		// 3. the schema-aware collectors across schema changes (fields added, removed, renamed, reordered, regrouped, an
+		//    enclosing sub-document renamed), runs of one to three samples per schema: every emitted chunk is still in
+		//    the layout and the independent decoder recovers the collected samples in order
+		nchg := 250
+		if thorough {
+			nchg = 6000
+		}
+		const pool = "ABCDEFHIJKLMNOPQRSTVW"
+		for i := 0; i < nchg; i++ {
+			kind := []string{"dyn", "sdyn"}[r.intn(2)]
+			var docs [][]elem
+			cur := pool[r.intn(len(pool))]
+			for l := 2 + r.intn(7); l > 0; l-- {
+				if r.chance(1, 2) {
+					cur = pool[r.intn(len(pool))]
+				}
+				docs = append(docs, poolDoc(r, cur))
+			}
+			id++
+			runAndRead(ho, ro, id, sameSchemaCase(kind, pickWrapper(r, kind), 1+r.intn(4), docs), false)
+		}
 		if err := ho.close(); err != nil {
 			return err
 		}
